@@ -124,6 +124,15 @@ func (w *World) siteVC(pkgPath string, only map[string]bool) (*VC, error) {
 				for _, in := range b.Instrs {
 					switch sd.Kind {
 					case "writers":
+						if call, ok := in.(*ssa.Call); ok {
+							// sync/atomic writers of the field
+							if callee := call.Call.StaticCallee(); callee != nil && callee.Pkg != nil && callee.Pkg.Pkg.Path() == "sync/atomic" && !strings.HasPrefix(callee.Name(), "Load") && len(call.Call.Args) > 0 {
+								if fa, ok := call.Call.Args[0].(*ssa.FieldAddr); ok && fieldSubject(fa.X.Type(), fa.Field) == subj {
+									add(fn, call.Pos())
+								}
+							}
+							continue
+						}
 						st, ok := in.(*ssa.Store)
 						if !ok {
 							continue
